@@ -95,7 +95,7 @@ def check_case(c, pname, dname, seed):
         V("constructor raises %s" % type(e).__name__, "%s(%d, %s) raised %s: %s" % (cls, F, c["opt"], type(e).__name__, str(e)[:120]))
         return out
     if pname != "init":
-        fill(m, ("pat", {"pat1": 0, "pat3": 1, "patT": 0, "patG": 0}[pname] + 2 * (seed % 3), {"pat1": 1.0, "pat3": 3.0, "patT": 1.0, "patG": 1.0}[pname]))
+        fill(m, ("pat", {"pat1": 0, "pat3": 1, "patT": 0, "patG": 0, "patE": 0}[pname] + 2 * (seed % 3), {"pat1": 1.0, "pat3": 3.0, "patT": 1.0, "patG": 1.0, "patE": 1.0}[pname]))
         if pname == "patT":
             # reflections are invariant under rescaling of their vectors: tiny (and huge) vectors must give the same orthogonal map
             with torch.no_grad():
@@ -107,6 +107,13 @@ def check_case(c, pname, dname, seed):
         if cls == "NaiveLinear":
             with torch.no_grad():
                 m._weight.add_(2.0 * torch.eye(F))
+    if pname == "patE":
+        # one extreme but legal unconstrained diagonal entry (100): the positive diagonal is softplus(100) + eps = 100, finite and
+        # invertible; a naive log1p(exp(.)) overflows in float32
+        with torch.no_grad():
+            for n_, p_ in m.named_parameters():
+                if n_.endswith(("unconstrained_diagonal", "unconstrained_upper_diag")) and p_.numel():
+                    p_.view(-1)[0] = 100.0
     m = m.to(dtype).eval()
     if pname == "patG":
         # the same well-conditioned map times a global factor (weight and bias): det W leaves the dtype's range for F >= 6 while
@@ -201,7 +208,7 @@ def run_unit(unit):
     cs, seed = unit
     res = new_result()
     for c in cs:
-        pats = ("init",) if c["cls"] == "random_orthogonal" else (("init", "pat1", "pat3", "patT") if "householder" in c["opt"] else (("init", "pat1", "pat3", "patG") if c["cls"] == "NaiveLinear" else ("init", "pat1", "pat3")))
+        pats = ("init",) if c["cls"] == "random_orthogonal" else (("init", "pat1", "pat3", "patT", "patE") if c["cls"] == "SVDLinear" else (("init", "pat1", "pat3", "patE") if c["cls"] == "LULinear" else None)) or (("init", "pat1", "pat3", "patT") if "householder" in c["opt"] else (("init", "pat1", "pat3", "patG") if c["cls"] == "NaiveLinear" else ("init", "pat1", "pat3")))
         for pname in pats:
             for dname in DT:
                 vs = check_case(c, pname, dname, seed)
